@@ -566,3 +566,16 @@ Proof.
     {| p_size := [3]; p_data := Dim [Sc 1; Sc 1; Sc 1] |}, [0], 7, 1.
   vm_compute. repeat split; try reflexivity. intros H; discriminate H.
 Qed.
+
+(* ---- EvolvableBERT as it is on the tree: re-initialisation before the copy loses every learned matrix,
+        even when the architecture is unchanged ------------------------------------------------------ *)
+Definition bert_old : named nat := [("generator.weight"%string, {| p_size := [1;2]; p_data := Dim [Dim [Sc 7; Sc 8]] |})].
+Definition bert_init (p : param nat) : param nat := {| p_size := p_size p; p_data := Dim [Dim [Sc 0; Sc 0]] |}.
+
+Lemma bert_reset_refuted_lemma :
+  exists (init : param nat -> param nat) (old fresh : named nat),
+    NoDup (map fst old) /\ same_sig old fresh /\ recreate_bert_pinned init old fresh <> old.
+Proof.
+  exists bert_init, bert_old, bert_old. split; [repeat constructor; cbn; tauto|]. split; [repeat constructor|].
+  vm_compute. intros H. discriminate H.
+Qed.
